@@ -14,7 +14,8 @@ RULE = (
 )
 ASSUMPTIONS = [
     "amaranth.sim.Simulator is the trusted execution model",
-    "FIFO is exercised with its default fifo_type (SyncFIFO)",
+    "FIFO is exercised with its default fifo_type (SyncFIFO) and, in the safety direction only, with SyncFIFOBuffered "
+    "(whose output register delays readiness, so 'ready iff non-empty' is not claimed for it)",
     "readiness is judged behaviourally: a requested call that is not accepted counts as 'not ready'",
 ]
 
@@ -25,7 +26,7 @@ def budget(tier):
 
 @st.composite
 def strategy(draw, tier="quick"):
-    kind = draw(st.sampled_from(["BasicFifo", "BasicFifo", "FIFO"]))
+    kind = draw(st.sampled_from(["BasicFifo", "BasicFifo", "FIFO", "FIFO", "FIFO:buffered"]))
     depth = draw(st.integers(1, 9))
     widths = draw(st.lists(st.integers(1, 8), min_size=1, max_size=2))
     methods = {"read": [], "peek": [], "write": [1 << w for w in widths]}
@@ -42,13 +43,26 @@ def run_case(case) -> Result:
     kind, depth, widths = case["kind"], case["depth"], case["widths"]
     layout = [(f"f{i}", w) for i, w in enumerate(widths)]
     res = Result(labels=[kind, f"depth{depth}"])
-    h = Harness(lambda: (BasicFifo if kind == "BasicFifo" else FIFO)(layout, depth))
+    import amaranth.lib.fifo as afifo
+
+    # "FIFO:buffered" = FIFO(fifo_type=SyncFIFOBuffered): its output register delays readiness by a cycle, so for this
+    # configuration only the safety direction is judged (an accepted read returns the oldest element of a non-empty
+    # queue, an accepted write had room), plus: an element written >= 3 cycles ago must be readable
+    buffered = kind == "FIFO:buffered"
+    if kind == "BasicFifo":
+        mk = lambda: BasicFifo(layout, depth)  # noqa: E731
+    elif buffered:
+        mk = lambda: FIFO(layout, depth, fifo_type=afifo.SyncFIFOBuffered)  # noqa: E731
+    else:
+        mk = lambda: FIFO(layout, depth)  # noqa: E731
+    h = Harness(mk)
     names = ["read", "write"] + (["peek", "clear"] if kind == "BasicFifo" else [])
     flags = dict(wrap=False, rw_edge=False, clear_write=False)
 
     async def tb(ctx):
         ios = h.ios(names)
         q = []
+        qcyc = []  # cycle in which each queued element was written
         written = 0
         for cyc, rec in enumerate(case["history"]):
             reqs = {}
@@ -68,6 +82,12 @@ def run_case(case) -> Result:
                 acc = results[n] is not None
                 if acc and n not in reqs:
                     return res.fail(f"cycle {cyc}: {n} ran without being requested")
+                if buffered:
+                    if acc and not ready:
+                        return res.fail(f"cycle {cyc}: {n} accepted although the queue is {'empty' if n == 'read' else 'full'} (level {len(q)}/{depth}, buffered)")
+                    if n == "read" and n in reqs and not acc and q and cyc - qcyc[0] >= 3:
+                        return res.fail(f"cycle {cyc}: read refused although the oldest element was written in cycle {qcyc[0]} (buffered)")
+                    continue
                 if n in reqs and acc != ready:
                     return res.fail(
                         f"cycle {cyc}: {n} requested, model ready={ready} (level {len(q)}/{depth}) but accepted={acc}"
@@ -84,13 +104,16 @@ def run_case(case) -> Result:
                 flags["clear_write"] = True
             if r_acc:
                 q.pop(0)
+                qcyc.pop(0)
             if w_acc:
                 q.append(reqs["write"])
+                qcyc.append(cyc)
                 written += 1
                 if written > depth:
                     flags["wrap"] = True
             if c_acc:
                 q.clear()
+                qcyc.clear()
 
     h.run(tb)
     for k, v in flags.items():
